@@ -1056,12 +1056,152 @@ def rule_hd_update(cx, rep, port):
 
 
 # ------------------------------------------------------------------------------------------------ variables
+def _varmap_model(cx, port):
+    """the four variable parsers evaluated on query texts and headers: numbered variables next to look-alikes (xa3, a4_, _a5, a06), subscripts,
+    attribute names (known / unknown), quoted names with blanks, quotes, a tab and a backslash.  {parser: problem or None} / None"""
+    memo = '_varmap_model_' + port
+    if hasattr(cx, memo):
+        return getattr(cx, memo)
+    import re as _re
+    from .. import absexec as AX
+    p = cx.port(port)
+    mod = cx.engine_mod(port)
+    res = {}
+
+    def esc(name, q):
+        name = name.replace('\\', '\\\\').replace('\n', '\\n').replace('\r', '\\r').replace('\t', '\\t')
+        return name.replace(q, '\\' + q)
+
+    def oracle(fname, query, prefix, names):
+        out = {}
+        if fname == 'parse_basic_variables':
+            for m_ in _re.finditer('(?:^|[^_a-zA-Z0-9])' + prefix + '([1-9][0-9]*)(?:$|(?=[^_a-zA-Z0-9]))', query):
+                out[prefix + m_.group(1)] = (True, int(m_.group(1)) - 1)
+        elif fname == 'parse_array_variables':
+            for m_ in _re.finditer('(?:^|[^_a-zA-Z0-9])' + prefix + r'\[([1-9][0-9]*)\]', query):
+                out['{}[{}]'.format(prefix, m_.group(1))] = (True, int(m_.group(1)) - 1)
+        elif fname == 'parse_attribute_variables':
+            for m_ in _re.finditer('(?:^|[^_a-zA-Z0-9])' + prefix + r'\.([_a-zA-Z][_a-zA-Z0-9]*)', query):
+                if m_.group(1) not in names:
+                    return 'error'
+                out['{}.{}'.format(prefix, m_.group(1))] = (True, names.index(m_.group(1)))
+        else:
+            if _re.search('(?:^|[^_a-zA-Z0-9])' + prefix + r'\[', query) is None:
+                return out
+            for i_, nm_ in enumerate(names):
+                if all(seg in query for seg in _re.findall('[-a-zA-Z0-9_:;+=!.,()%^#@&* ]+', nm_)):
+                    for q_ in (['"', "'"] + (['`'] if port == 'js' else [])):
+                        out['{}[{}{}{}]'.format(prefix, q_, esc(nm_, q_), q_)] = (q_ == '"', i_)
+        return out
+    cases = [('parse_basic_variables', 'select a1, a12,xa3, a4_, _a5, a06, a7+a1', 'a', None), ('parse_basic_variables', 'b2==a3', 'b', None),
+             ('parse_array_variables', 'a[1] , a[20],xa[3], a[0], b[4]', 'a', None),
+             ('parse_attribute_variables', 'select a.name, a.x1 , b.zz, xa.q', 'a', ['name', 'x1', 'zz']), ('parse_attribute_variables', 'select a.name, a.none', 'a', ['name']),
+             ('parse_dictionary_variables', 'select a["x y"], a[\'q\']', 'a', ['x y', 'q', 'other name', 'x']),
+             ('parse_dictionary_variables', 'select a["it\'s"], a["tab\\there"], a["back\\\\slash"], a[\'say "hi"\']', 'a', ["it's", 'tab\there', 'back\\slash', 'say "hi"', 'new\nline']),
+             ('parse_dictionary_variables', 'select a1, b["x"]', 'a', ['x']),
+             ('parse_dictionary_variables', "select a['it\\'s'], a['km/h'], a['a|b?']", 'a', ["it's", 'km/h', 'a|b?', 'it']),
+             ('parse_dictionary_variables', 'select a["caf\xe9"], a["\u0446\u0435\u043d\u0430 1"]', 'a', ['caf\xe9', '\u0446\u0435\u043d\u0430 1'])]
+    try:
+        for fname, query, prefix, names in cases:
+            fd = p.func(mod, fname)
+
+            def on_call(ex, node, fname_, recv, args):
+                short = node.func.attr if isinstance(node.func, ast.Attribute) else fname_
+                if short == 'VariableInfo':
+                    kw = dict(ex.last_kwargs or {})
+                    return {'initialize': kw.get('initialize', args[0] if args else None), 'index': kw.get('index', args[1] if len(args) > 1 else None)}
+                if isinstance(node.func, ast.Name) and node.func.id.endswith('Error'):
+                    return AX.Abs('Exc', cls=node.func.id)
+                if fname_ == 'parseInt' and len(args) >= 1 and isinstance(args[0], str) and args[0].isdigit():
+                    return int(args[0])
+                if fname_ == 'assert':
+                    return None
+                return AX.NOT_HANDLED
+            dst = {}
+            args = [query, prefix] + ([list(names)] if names is not None else []) + (['input table header'] if fname == 'parse_attribute_variables' else []) + [dst]
+            if len(fd.args.args) != len(args):
+                raise Undecided('{} takes {} parameters'.format(fname, len(fd.args.args)), fd)
+            runs, cut = AX.Explorer(p, mod, on_call=on_call, max_choices=1).explore(fd, args)
+            if cut or len(runs) != 1:
+                raise Undecided('{} does not complete'.format(fname), fd)
+            want = oracle(fname, query, prefix, names or [])
+            if runs[0].outcome[0] == 'raise':
+                v_ = runs[0].outcome[1]
+                got = 'error' if isinstance(v_, AX.Abs) and v_.props.get('cls') == 'RbqlParsingError' else 'another error'
+            else:
+                got = {k_: ((v_.get('initialize'), v_.get('index')) if isinstance(v_, dict) else v_) for k_, v_ in dst.items()}
+            if got != want and res.get(fname) is None:
+                def show(d_):
+                    return d_ if isinstance(d_, str) else {k_: 'column {}{}'.format(v_[1] + 1 if isinstance(v_[1], int) else v_[1], '' if v_[0] else ' (not initialised)') for k_, v_ in sorted(d_.items())} if isinstance(d_, dict) else repr(d_)
+                res[fname] = 'for the query `{}`{} {} binds {} instead of {}'.format(query, ' and the column names {}'.format(names) if names else '', fname, show(got), show(want))
+            res.setdefault(fname, None)
+    except (Undecided, AX.Cut, AX._NeedChoice, KeyError, IndexError, TypeError, AttributeError, ValueError) as e_:
+        import os
+        if os.environ.get('RBQL_VERIF_DEBUG'):
+            print('variable map model gave up:', type(e_).__name__, str(e_)[:200])
+        res = None
+    setattr(cx, memo, res)
+    return res
+
+
+def _safe_access_model(cx, port, p, mod):
+    """safe_get / safe_set / safe_join_get evaluated on a two-field record with the indices 0, 1, 2, 5: {function: problem or None} / None"""
+    from .. import absexec as AX
+    res = {}
+    try:
+        for fname in ('safe_get', 'safe_set', 'safe_join_get'):
+            fd = p.func(mod, fname)
+            res[fname] = None
+            for idx, with_none in ((0, False), (1, False), (2, False), (5, False), (1, True), (0, True)):
+                rec = ['x', None] if with_none else ['x', 'y']
+                orig = list(rec)
+
+                def on_call(ex, node, fname_, recv, args):
+                    if isinstance(node.func, ast.Name) and node.func.id.endswith('Error'):
+                        return AX.Abs('Exc', cls=node.func.id, args=tuple(args))
+                    return AX.NOT_HANDLED
+                args = [rec, idx] + (['NEW'] if fname == 'safe_set' else [])
+                if len(fd.args.args) != len(args):
+                    raise Undecided('{} takes {} parameters'.format(fname, len(fd.args.args)), fd)
+                runs, cut = AX.Explorer(p, mod, on_call=on_call, max_choices=1).explore(fd, args)
+                if cut or len(runs) != 1:
+                    raise Undecided('{} does not complete'.format(fname), fd)
+                kind, val, _n = runs[0].outcome
+                inside = idx < 2
+                bad = None
+                if fname == 'safe_get':
+                    want = orig[idx] if inside else None
+                    if kind != 'return' or val != want or rec != orig:
+                        bad = 'safe_get(record of 2 fields, {}) gives {!r} instead of {!r}'.format(idx, val if kind == 'return' else 'an error', want)
+                elif inside:
+                    want_rec = list(orig) if fname == 'safe_join_get' else [('NEW' if i_ == idx else v_) for i_, v_ in enumerate(orig)]
+                    if kind != 'return' or rec != want_rec or (fname == 'safe_join_get' and val != orig[idx]):
+                        bad = '{}(record {!r}, {}) does not {} field {}{}'.format(fname, orig, idx, 'return' if fname == 'safe_join_get' else 'assign', idx + 1, ' (a field that holds None exists all the same)' if with_none else '')
+                else:
+                    is_bad_field = kind == 'raise' and isinstance(val, AX.Abs) and val.props.get('cls') == 'InternalBadFieldError' and val.props.get('args') == (idx,)
+                    if not is_bad_field or rec != orig:
+                        bad = '{}(record of 2 fields, {}) does not raise InternalBadFieldError({}) leaving the record alone (it {})'.format(fname, idx, idx, 'returns {!r}, record {!r}'.format(val, rec) if kind == 'return' else 'raises {!r}'.format(val))
+                if bad and res[fname] is None:
+                    res[fname] = bad
+    except (Undecided, AX.Cut, AX._NeedChoice, KeyError, IndexError, TypeError, AttributeError, ValueError) as e_:
+        import os
+        if os.environ.get('RBQL_VERIF_DEBUG'):
+            print('safe access model gave up:', type(e_).__name__, str(e_)[:200])
+        return None
+    return res
+
+
 def rule_va_index(cx, rep, port):
     """every variable parser stores index N-1; safe_get guard; b-variables None when record_b is None"""
     p = cx.port(port)
     mod = cx.engine_mod(port)
+    vm = _varmap_model(cx, port)
     for fname in ('parse_basic_variables', 'parse_array_variables'):
         fd = p.func(mod, fname)
+        if vm is not None:
+            rep.decide(vm.get(fname) is None, fname + ' index', fd, 'variable N -> zero-based index N-1, look-alikes ignored (parser evaluated on query texts)', vm.get(fname) or '')
+            rep.decide(vm.get(fname) is None, fname + ' key', fd, 'keyed by the variable spelling (prefix + N)', vm.get(fname) or '')
+            continue
         stores = [n for n in walk_no_nested(fd) if isinstance(n, ast.Assign) and isinstance(n.targets[0], ast.Subscript) and is_name(n.targets[0].value, 'dst_variables_map')]
         ok = len(stores) == 1 and 'field_num - 1' in node_text(stores[0].value)
         rep.decide(ok, fname + ' index', stores[0] if stores else fd, 'variable N -> zero-based index N-1', '{} does not map variable N to index N-1 (`{}`)'.format(fname, node_text(stores[0].value) if stores else ''))
@@ -1069,6 +1209,12 @@ def rule_va_index(cx, rep, port):
             k = node_text(stores[0].targets[0].slice)
             okk = ('prefix' in k and 'field_num' in k)
             rep.decide(okk, fname + ' key', stores[0], 'keyed by the variable spelling (prefix + N)', 'the variable map key is not built from prefix and N')
+    sam = _safe_access_model(cx, port, p, mod)
+    if sam is not None:
+        for fn_, good_ in (('safe_get', 'record[idx] if idx < len(record) else None'), ('safe_set', 'assignment within the record, otherwise the bad-field error with the index'), ('safe_join_get', 'join key field or the bad-field error')):
+            rep.decide(sam[fn_] is None, fn_, p.func(mod, fn_), good_ + ' (evaluated for indices inside and beyond a two-field record)', sam[fn_] or '')
+        _va_index_tail(cx, rep, port, p, mod)
+        return
     sg = p.func(mod, 'safe_get')
     okg = alpha_equal(sg, "def safe_get(record, idx):\n    return record[idx] if idx < len(record) else None")
     rep.decide(okg, 'safe_get', sg, 'record[idx] if idx < len(record) else None', 'safe_get is no longer equivalent to "record[idx] if idx < len(record) else None" (`{}`)'.format(node_text(sg.body[-1], 120)))
@@ -1078,6 +1224,10 @@ def rule_va_index(cx, rep, port):
     sj = p.func(mod, 'safe_join_get')
     okj = alpha_equal(sj, "def safe_join_get(record, idx):\n    try:\n        return record[idx]\n    except IndexError:\n        raise InternalBadFieldError(idx)") or alpha_equal(sj, "def safe_join_get(record, idx):\n    if idx < len(record):\n        return record[idx]\n    raise InternalBadFieldError(idx)")
     rep.decide(okj, 'safe_join_get', sj, 'join key field or the bad-field error', 'safe_join_get no longer returns the field or raises InternalBadFieldError(idx) beyond the record')
+    _va_index_tail(cx, rep, port, p, mod)
+
+
+def _va_index_tail(cx, rep, port, p, mod):
     gi = p.func(mod, 'generate_init_statements')
     gm = _init_statements_model(cx, port, p, mod, gi)
     if gm is not None:
@@ -1477,6 +1627,14 @@ def rule_va_esc(cx, rep, port):
     mod = cx.engine_mod(port)
     fname = 'python_string_escape_column_name' if port == 'py' else 'js_string_escape_column_name'
     fd = p.func(mod, fname)
+    vm = _varmap_model(cx, port)
+    if vm is not None:
+        pd_ = p.func(mod, 'parse_dictionary_variables')
+        for k_ in ('backslash first', 'escape coverage', 'quote pairs', 'segment class', 'segment test'):
+            rep.decide(vm.get('parse_dictionary_variables') is None, k_, pd_, 'quoted-name variables are bound under the spelling a query has to use for that name - blanks, quotes, a tab, a backslash, a line break in the name - for every quote character (parser evaluated on three query texts)', vm.get('parse_dictionary_variables') or '')
+        rep.decide(vm.get('parse_attribute_variables') is None, 'attribute variables', p.func(mod, 'parse_attribute_variables'), 'a.name binds the column of that name; an unknown name is the parsing error', vm.get('parse_attribute_variables') or '')
+        return
+    rep._fallback = 'the variable parsers are outside the abstract interpreter'
     reps = _replacement_sequence(fd, port)
     if not reps:
         raise Undecided('escape function has no replace calls', fd)
